@@ -32,8 +32,8 @@ Step(e) ==
       [] e.ev = "cond"    -> /\ e.x = x
                              /\ IF e.kind = "fw" THEN EvalFw(e.ri, e.xd, e.verdict) ELSE EvalBw(e.ri, e.verdict)
       [] e.ev = "solve"   -> SolveWith(e.conds, e.x, e.ok)
-      [] e.ev = "result"  -> Report(e.x, e.ok, e.sane, e.exc, e.nan, e.judged)
-      [] e.ev = "bracket" -> ~e.raised /\ Bracket(e.x)
+      [] e.ev = "result"  -> Report(e.x, e.ok, e.sane, e.exc, e.nan, e.judged, e.intact)
+      [] e.ev = "bracket" -> ~e.raised /\ Bracket(e.x, e.dl)
       [] e.ev = "rate"    -> phase = "pick" /\ RateOK(e.ok, e.n) /\ UNCHANGED vars
       [] OTHER            -> FALSE
 
@@ -66,17 +66,18 @@ Clause ==
           (IF e.exc THEN "step:result"
            ELSE IF phase # "term" THEN "step:result-phase"
            ELSE IF ~e.nan /\ (e.x # x \/ e.ok # succ) THEN "step:result-mismatch"
+           ELSE IF ~e.intact THEN "argument-or-earlier-result-modified"
            ELSE IF e.nan THEN "genuine:nan"
            \* a judged result is named by the Genuine clause it misses; the sane flag by itself is what
            \* remains for an unjudged (stub) formulation
            ELSE IF e.judged /\ e.ok /\ e.sane /\ ~Genuine(e.x) THEN "genuine:" \o GenuineClause(e.x)
            ELSE "sane-flag")
       ELSE IF e.ev = "bracket" THEN
-          (IF phase # "done" THEN "step:bracket"
+          (IF phase \notin {"done", "checked"} THEN "step:bracket"
            ELSE IF e.raised THEN "bracket-raises"
            ELSE IF ~NonNeg(e.x) THEN "bracket-negative"
            ELSE IF ~KeepsTotals(e.x) THEN "bracket-totals"
-           ELSE IF ~GenuineAbs(e.x) THEN "bracket-quotient"
+           ELSE IF ~GenuineAbs(e.x, e.dl) THEN "bracket-quotient"
            ELSE "bracket-agreement")
       ELSE IF e.ev = "rate" THEN "success-rate"
       ELSE "step:" \o e.ev
